@@ -27,6 +27,9 @@ EXPLANATION = (
     '(d) shared rules whose violation corrupts delivered bytes: fragments of one stream are not displaced behind '
     'frames of that stream (C05.a), reassembly keeps the flags of the last fragment (C03.c), the last-fragment mark '
     'is an exhaustion test (C03.f).')
+EXPLANATION_ADDED = ("(e) received frames reach the code the other rules analyse: the receive loop passes every frame of the transport and its dispatch table to _handle_next_frame, which puts fragmentable frames through the reassembly cache exactly once and dispatches the cache's result, sends stream-0 frames and new requests (never offered to the stream table first) to the table and everything else to the stream table; table[type(frame)] is awaited with the frame; each row's method calls the application's entry point once with Payload(frame.data, frame.metadata), creates the matching responder and hands it the request frame; the handler future of a request-response is wired to the responder's send callback; (f) per (interaction, role, event) what a handler does on every path from its initial state is the protocol's reaction (signals, frames with their flags, future resolution, credit, cancellation), on the right branch of the tests it depends on; (g) the library's stream source hands every credited element on exactly once (C06.e), new_frame_fragment (C03.b) and the queue class (C05.f) do what the picker assumes.")
+EXPLANATION = EXPLANATION.replace(' Not decided', ' ' + EXPLANATION_ADDED + ' Not decided', 1) \
+    if ' Not decided' in EXPLANATION else EXPLANATION + ' ' + EXPLANATION_ADDED
 ASSUMPTIONS = COMMON_ASSUMPTIONS
 
 
